@@ -297,14 +297,29 @@ func WritePlainDir(st *store.Store, entries map[string]cid.Cid, sizes map[string
 // used up), with the entry itself in the last shard. A chain longer than
 // 64/log2(fanout) levels cannot be addressed by any lookup.
 func WriteDeepShardChain(st *store.Store, fanout, depth int, name string) cid.Cid {
+	return WriteShardChain(st, func(int) int { return fanout }, depth, name)
+}
+
+// WriteShardChain is WriteDeepShardChain with a fanout per level: a
+// mixed-fanout chain is legal (each shard is self-describing) and is where
+// code that carries one shard's width into another goes wrong.
+func WriteShardChain(st *store.Store, fanAt func(level int) int, depth int, name string) cid.Cid {
 	h := murmur3.Sum64([]byte(name))
-	w := 0
-	for 1<<uint(w) < fanout {
-		w++
+	widthOf := func(f int) int {
+		w := 0
+		for 1<<uint(w) < f {
+			w++
+		}
+		return w
 	}
-	pad := len(fmt.Sprintf("%X", fanout-1))
+	consumedAt := make([]int, depth+1)
+	for l := 0; l < depth; l++ {
+		consumedAt[l+1] = consumedAt[l] + widthOf(fanAt(l))
+	}
 	idxAt := func(level int) int {
-		consumed := level * w
+		fanout := fanAt(level)
+		w := widthOf(fanout)
+		consumed := consumedAt[level]
 		if consumed+w > 64 {
 			return 0
 		}
@@ -313,6 +328,8 @@ func WriteDeepShardChain(st *store.Store, fanout, depth int, name string) cid.Ci
 	target := EntryTarget(st, name)
 	var child cid.Cid
 	for level := depth - 1; level >= 0; level-- {
+		fanout := fanAt(level)
+		pad := len(fmt.Sprintf("%X", fanout-1))
 		idx := idxAt(level)
 		bf := make([]byte, fanout/8)
 		bf[len(bf)-1-idx/8] |= 1 << (uint(idx) % 8)
